@@ -116,6 +116,25 @@ func (e *FnEnc) modTargetsOf(x Expr, env *specEnv, src string) []modTarget {
 		if !ok {
 			sfail("modifies *%s: not a pointer", n.X)
 		}
+		if l := p.Loc; l != nil {
+			// a pointer to a field / element / global (e.g. `&c.count` passed to sync/atomic): the location itself
+			var ts []modTarget
+			for _, lf := range e.sorter.leaves(l.T) {
+				switch l.Kind {
+				case "field":
+					r := l.Ref
+					ts = append(ts, modTarget{name: objArrName(l.ObjT, "."+l.Fld+lf.suffix), sort: e.arrSort1(lf.sort), ref: r,
+						allow: func(x string) string { return seq(x, r) }})
+				case "elem":
+					b, i := l.Ref, l.Idx
+					ts = append(ts, modTarget{name: elemArrName(l.ObjT, lf.suffix), sort: e.arrSort2(lf.sort), ref: b,
+						allow: func(x string) string { return seq(x, b) }, lo: i, hi: e.idxAdd(i, e.idxConst(1))})
+				case "global":
+					ts = append(ts, modTarget{name: "G/" + l.ObjT + "/" + lf.suffix, sort: lf.sort, whole: true})
+				}
+			}
+			return ts
+		}
 		return e.objTargets(p.L[0], pt.Elem())
 	case *ESlice:
 		s := env.eval(n.X)
